@@ -248,6 +248,57 @@ func (p *c12) aliasRebind(rec *core.Recorder, r *core.Rand) {
 	}
 }
 
+// structuredDefaults: defaults that are hash and array literals whose members name variables, and arithmetic on a variable;
+// an omitted argument takes the value of its default expression at the time of the call, through every call form.
+func (p *c12) structuredDefaults(rec *core.Recorder, r *core.Rand) {
+	def := "{% macro tag(name, attrs = {'class': cls, 'id': 'x'}, items = [cls, 'z'], n2 = count + 1, lit = {'a': 1}) %}<{{ name }}:{{ attrs.class }}:{{ attrs.id }}:{{ items|join('+') }}:{{ n2 }}:{{ lit.a }}>{% endmacro %}"
+	form, site, explicit := r.Intn(5), r.Intn(2), r.P(1, 3)
+	var pre, callee string
+	switch form {
+	case 0:
+		pre, callee = def, "tag"
+	case 1:
+		pre, callee = def, "_self.tag"
+	case 2:
+		pre, callee = "{% import 'slib' as m %}", "m.tag"
+	case 3:
+		pre, callee = "{% from 'slib' import tag %}", "tag"
+	default:
+		pre, callee = "{% from 'slib' import tag as t %}", "t"
+	}
+	cls, count := []string{"hot", "é", "c1"}[r.Intn(3)], int64(r.Range(0, 50))
+	args := "'div'"
+	if explicit {
+		args = "'div', {'class': 'given', 'id': cls}"
+	}
+	one := func(c string) string {
+		if explicit {
+			return fmt.Sprintf("<div:given:%s:%s+z:%d:1>", c, c, count+1)
+		}
+		return fmt.Sprintf("<div:%s:x:%s+z:%d:1>", c, c, count+1)
+	}
+	var main, want string
+	if site == 0 {
+		main, want = pre+"{{ "+callee+"("+args+") }}", one(cls)
+	} else {
+		main = pre + "{% for cls in ['a', 'b'] %}{{ " + callee + "(" + args + ") }}{% endfor %}"
+		want = one("a") + one("b")
+	}
+	srcs := map[string]string{"slib": def, "main": main}
+	canon := canonSrcs(srcs) + cls + fmt.Sprint(count)
+	rec.Eval("structured-defaults", canon, true)
+	res := renderFresh(srcs, "main", map[string]interface{}{"cls": cls, "count": count}, nil)
+	if res.Panicked {
+		rec.Violate("panic", "panic@"+res.Site, "engine panicked: "+res.PanicVal, map[string]any{"templates": srcs}, res.Stack)
+		return
+	}
+	if res.Err != nil || res.Out != want {
+		rec.Violate("structured-defaults", fmt.Sprintf("c12-structured-default:form%d:site%d", form, site),
+			fmt.Sprintf("%s call: engine gave %s (err=%v), the defaults evaluated at the call require %s; main %s", c12Forms[form], core.Q(core.Trunc(res.Out, 200)), res.Err, core.Q(want), core.Q(main)),
+			map[string]any{"templates": srcs, "cls": cls, "count": count, "expected": want}, "")
+	}
+}
+
 func (p *c12) Run(rec *core.Recorder, seed uint64, idx int, tier string) {
 	var c c12Case
 	class := "grid"
@@ -274,6 +325,9 @@ func (p *c12) Run(rec *core.Recorder, seed uint64, idx int, tier string) {
 		c.tight = idx%7 == 3
 	} else if idx%50 == 7 {
 		p.aliasRebind(rec, core.NewRand("C12alias", seed, idx))
+		return
+	} else if idx%50 == 9 {
+		p.structuredDefaults(rec, core.NewRand("C12struct", seed, idx))
 		return
 	} else {
 		r := core.NewRand("C12", seed, idx)
